@@ -78,13 +78,13 @@ reaches the consumer) nothing accepted is dropped, however many failures occur. 
 theorem none_dropped_while_running (m : Nat) (b t : Int) (steps : List Step) :
     let v := run (mk m b t) steps
     v.q.emitted = v.done ++ optL v.cur ∧
-    (∀ v', step v .execFail = some v' →
+    (∀ k v', step v (.execFail k) = some v' →
       v'.q = v.q ∧ v'.cur = v.cur ∧ v'.done = v.done ∧ v'.applied = v.applied) ∧
     (∀ r, v.cur = some r → v.stopped = false →
       ∃ v', step v .execOk = some v' ∧ v'.done = v.done ++ [r] ∧
         v'.applied = v.applied ++ [r.objs] ∧ v'.cur = none) := by
   refine ⟨(inv m b t steps).emitted, ?_, ?_⟩
-  · intro v' hs
+  · intro k v' hs
     simp only [step] at hs
     split at hs
     · cases hs
@@ -203,7 +203,7 @@ theorem stopped_freezes_applied (v : Svc) (st : Step) (h : v.stopped = true) :
     simp only [next, step]
     split <;> simp [h]
   | take => simp [next, step, h]
-  | execFail => simp [next, step, h]
+  | execFail k => simp [next, step, h]
   | execFailCommitted => simp [next, step, h]
   | execOk => simp [next, step, h]
   | stop => simp [next, step, h]
@@ -211,7 +211,7 @@ theorem stopped_freezes_applied (v : Svc) (st : Step) (h : v.stopped = true) :
 /-- a request accepted and being retried when the service is closed is never applied -/
 theorem shutdown_strands_witness :
     let v := run (mk 8 2 5) [.queue (.write [1] none), .queue .recv, .queue .fire, .queue .send, .take,
-      .execFail, .stop, .execOk, .queue (.write [2] none), .take, .execOk]
+      .execFail .other, .stop, .execOk, .queue (.write [2] none), .take, .execOk]
     v.applied = [] ∧ v.cur.isSome = true ∧ v.q.written.length = 2 := by decide
 
 /-- **The 408 wait-timeout path only observes** (regenerated): the branch of
@@ -224,24 +224,26 @@ theorem wait_timeout_is_observer :
 
 /-- **Shape of the consumer in the current sources** (regenerated): in `runQueue` the only
 `req.Close()` comes after the retry loop, the loop contains exactly one `Execute` call and
-its only `break` is under `err == nil`; `queuedExecute` writes to the queue exactly once
+its only `break` (in any branch, then or else) is under `err == nil` and its only `return` is
+the one on `closeCh` — the loop is left only by success or shutdown, whatever the error kind; `queuedExecute` writes to the queue exactly once
 and waits on the flush channel only after that write. -/
 theorem consumer_shape :
     RqModel.Gen.QueueSvc.runQueueFound = true ∧ RqModel.Gen.QueueSvc.closeAfterRetryLoop = true ∧
     RqModel.Gen.QueueSvc.reqCloseCalls = 1 ∧ RqModel.Gen.QueueSvc.executeCallsInLoop = 1 ∧
     RqModel.Gen.QueueSvc.breaksUnderNilErr = 1 ∧ RqModel.Gen.QueueSvc.otherBreaksInLoop = 0 ∧
+    RqModel.Gen.QueueSvc.returnsInLoop = 1 ∧
     RqModel.Gen.QueueSvc.queuedExecuteFound = true ∧ RqModel.Gen.QueueSvc.stmtQueueWrites = 1 ∧
     RqModel.Gen.QueueSvc.waitOnFlushChanAfterWrite = true := by decide
 
 /-! ### non-vacuity: two requests batched together, a failure burst, then success; a waiter -/
 example :
     let v := run (mk 8 2 0) [.queue (.write [1, 2] (some 7)), .queue (.write [3] none), .queue .recv, .queue .recv,
-      .queue .send, .take, .execFail, .execFail, .queue (.write [4] none), .execOk]
+      .queue .send, .take, .execFail .leaderNotFound, .execFail .other, .queue (.write [4] none), .execOk]
     v.applied = [[1, 2, 3]] ∧ v.failed = 2 ∧ v.q.closedFlush = [7] ∧ v.done.length = 1 := by decide
 
 example :
     let v := run (mk 8 2 0) [.queue (.write [1, 2] (some 7)), .queue (.write [3] none), .queue .recv, .queue .recv,
-      .queue .send, .take, .execFail]
+      .queue .send, .take, .execFail .notLeader]
     v.applied = [] ∧ v.q.closedFlush = [] ∧ v.cur.isSome = true := by decide
 
 end C23
